@@ -88,7 +88,7 @@ theorem appB_tsigTail (ts : Tsig) (mac : Option (List UInt8)) (s s' : State) (hm
 theorem appB_finishTsig (macFn : Tsig → List UInt8 → List UInt8) (ts : Tsig) (s s' : State)
     (hm : s.mode = .disabled) (r : Nat × Option (List UInt8))
     (h : finishTsig macFn (some ts) s = (.ok r, s')) :
-    AppB s s' (tsigEnc ts r.2) ∧ r.1 = s'.cursor := by
+    AppB s s' (tsigEnc ts r.2) ∧ r.1 = s'.cursor ∧ (r.2 = none ∨ ∃ msg, r.2 = some (macFn ts msg)) := by
   unfold finishTsig at h
   simp only [M.bind_apply, M.gets_apply] at h
   by_cases hc : s.cursor > s.octets.size
@@ -101,24 +101,24 @@ theorem appB_finishTsig (macFn : Tsig → List UInt8 → List UInt8) (ts : Tsig)
     simp only [] at h
     have := appB_tsigTail ts (some (macFn ts (s.octets.extract 0 s.cursor).toList)) s s' hm r
       (by rw [hmode]; exact h)
-    rw [this.2]; exact ⟨this.1, rfl⟩
+    rw [this.2]; exact ⟨this.1, rfl, Or.inr ⟨_, rfl⟩⟩
   | response a m k =>
     rw [hmode] at h
     simp only [] at h
     have := appB_tsigTail ts (some (macFn ts (s.octets.extract 0 s.cursor).toList)) s s' hm r
       (by rw [hmode]; exact h)
-    rw [this.2]; exact ⟨this.1, rfl⟩
+    rw [this.2]; exact ⟨this.1, rfl, Or.inr ⟨_, rfl⟩⟩
   | subsequent a m k =>
     rw [hmode] at h
     simp only [] at h
     have := appB_tsigTail ts (some (macFn ts (s.octets.extract 0 s.cursor).toList)) s s' hm r
       (by rw [hmode]; exact h)
-    rw [this.2]; exact ⟨this.1, rfl⟩
+    rw [this.2]; exact ⟨this.1, rfl, Or.inr ⟨_, rfl⟩⟩
   | unsigned n =>
     rw [hmode] at h
     simp only [] at h
     have := appB_tsigTail ts none s s' hm r (by rw [hmode]; exact h)
-    rw [this.2]; exact ⟨this.1, rfl⟩
+    rw [this.2]; exact ⟨this.1, rfl, Or.inl rfl⟩
 
 
 theorem writeAt_append (a : Bytes) (pos : Nat) (d1 d2 : List UInt8) :
@@ -213,7 +213,8 @@ def tsigEncOpt : Option Tsig → Option (List UInt8) → List UInt8
 theorem finish_bytes (macFn : Tsig → List UInt8 → List UInt8) (s : State) (b : Body) (h : Lay s b)
     (m : Bytes) (mac : Option (List UInt8)) (hf : finish s macFn = .ok (m, mac)) :
     m.toList = s.octets.toList.take 4 ++ (u16be s.qdcount ++ u16be s.ancount ++ u16be s.nscount ++
-      u16be s.arcount) ++ b.enc ++ (optEnc s.edns ++ tsigEncOpt s.tsig mac) := by
+      u16be s.arcount) ++ b.enc ++ (optEnc s.edns ++ tsigEncOpt s.tsig mac) ∧
+    (mac = none ∨ ∃ ts msg, s.tsig = some ts ∧ mac = some (macFn ts msg)) := by
   unfold finish at hf
   cases hw : finishWithMac macFn s with
   | mk r sF =>
@@ -247,18 +248,23 @@ theorem finish_bytes (macFn : Tsig → List UInt8 → List UInt8) (s : State) (b
               simp only [] at hw
               have a1 := appB_finishOpt s.edns sA s1 (by rw [kmode]; exact h.mode) ho
               -- the TSIG part
-              have key : AppB s1 sF (tsigEncOpt s.tsig mc) ∧ len = sF.cursor := by
+              have key : AppB s1 sF (tsigEncOpt s.tsig mc) ∧ len = sF.cursor ∧
+                  (mc = none ∨ ∃ ts msg, s.tsig = some ts ∧ mc = some (macFn ts msg)) := by
                 cases hts : s.tsig with
                 | none =>
                   rw [hts] at hw
                   simp only [finishTsig, M.bind_apply, M.gets_apply, M.pure_apply] at hw
                   cases hw
-                  exact ⟨AppB.refl _, rfl⟩
+                  exact ⟨AppB.refl _, rfl, Or.inl rfl⟩
                 | some ts =>
                   rw [hts] at hw
                   have hm1 : s1.mode = .disabled := by rw [a1.mode, kmode]; exact h.mode
-                  exact appB_finishTsig macFn ts s1 sF hm1 (len, mc) hw
-              obtain ⟨a2, hlen⟩ := key
+                  obtain ⟨k1, k2, k3⟩ := appB_finishTsig macFn ts s1 sF hm1 (len, mc) hw
+                  refine ⟨k1, k2, ?_⟩
+                  rcases k3 with k3 | ⟨msg, k3⟩
+                  · exact Or.inl k3
+                  · exact Or.inr ⟨ts, msg, rfl, k3⟩
+              obtain ⟨a2, hlen, hmacp⟩ := key
               have a12 := AppB.trans a1 a2
               have hcurA : sA.cursor = 12 + b.enc.length := by rw [kcur]; exact h.cur
               have hl : ∀ x, (u16be x).length = 2 := fun _ => rfl
@@ -291,6 +297,7 @@ theorem finish_bytes (macFn : Tsig → List UInt8 → List UInt8) (s : State) (b
                   (optEnc s.edns ++ tsigEncOpt s.tsig mc)).length := by
                 rw [a12.cur, hcurA]
                 simp only [List.length_append, hlen4, hlen8]
+              refine ⟨?_, hmacp⟩
               rw [← hm, hlen, hcurF]
               have := bytesAt_extract hall
               rw [Nat.zero_add] at this
